@@ -200,9 +200,9 @@ pub fn run(run: &mut Run) {
     }
     run.extra.insert("exhaustive_cases".into(), json!(cases.len()));
     // deep chains
-    for depth in if run.thorough() { vec![1000usize, 65535] } else { vec![1000, 20000] } {
+    for depth in if run.thorough() { vec![1000usize, 32767, 32768, 32769, 40000, 65535] } else { vec![1000usize, 32769, 65535] } {
         let levels: Vec<u16> = (0..depth).map(|i| i as u16).collect();
-        for hide in [usize::MAX, 0, depth / 2, depth - 1] {
+        for hide in [usize::MAX, 0, 1, depth / 2, depth - 2, depth - 1] {
             let r = check_guarded(|| {
                 let (nt, _) = check_forest(&levels, &|i| i != hide, true)?;
                 Ok(Outcome::new(nt, (depth as u64) << 20 | (hide as u64 & 0xFFFFF)).label("deep-chain"))
